@@ -53,7 +53,7 @@ func check(ctx *pbt.Ctx, c Case) error {
 		return nil
 	}
 	// caller-owned objects
-	if c.Invoke == 2 {
+	if c.Invoke == 2 || c.Invoke == 3 {
 		// the transaction's checked input carries no unlocking script of its own; the script is
 		// supplied through WithScripts next to WithTx
 		model.In = append([]ref.In{}, model.In...)
@@ -85,6 +85,11 @@ func check(ctx *pbt.Ctx, c Case) error {
 		opts = append(opts, interpreter.WithScripts(lockObj, unlockObj))
 	} else if c.Invoke == 2 {
 		unlockObj = bscript.NewFromBytes(ref.Canary(c.Unlock))
+		opts = append(opts, interpreter.WithTx(tx, 0, prev), interpreter.WithScripts(lockObj, unlockObj))
+	} else if c.Invoke == 3 {
+		// (tenth round) the spent output carries the value only, the scripts come through WithScripts
+		unlockObj = bscript.NewFromBytes(ref.Canary(c.Unlock))
+		prev = &bt.Output{Satoshis: c.Ctx.Amount}
 		opts = append(opts, interpreter.WithTx(tx, 0, prev), interpreter.WithScripts(lockObj, unlockObj))
 	} else {
 		opts = append(opts, interpreter.WithTx(tx, 0, prev))
@@ -126,7 +131,21 @@ func check(ctx *pbt.Ctx, c Case) error {
 			return fmt.Errorf("checked input does not carry the spent output's script/value after execution")
 		}
 	}
-	if c.Invoke == 2 && tx.Inputs[0].UnlockingScript != nil {
+	if (c.Invoke == 2 || c.Invoke == 3) && execErr == nil {
+		// whatever way the scripts were handed over: what is recorded on the checked input is the spent
+		// output's value, and its script (or nothing, when the output object carried none)
+		in := tx.Inputs[0]
+		if in.PreviousTxSatoshis != c.Ctx.Amount {
+			return fmt.Errorf("the checked input records %d satoshis after execution, the spent output handed over carries %d (invocation mode %d)", in.PreviousTxSatoshis, c.Ctx.Amount, c.Invoke)
+		}
+		if in.PreviousTxScript != nil && !bytes.Equal(*in.PreviousTxScript, c.Lock) {
+			return fmt.Errorf("the checked input records the script %x after execution, the spent output's is %x (invocation mode %d)", []byte(*in.PreviousTxScript), []byte(c.Lock), c.Invoke)
+		}
+		if prev.Satoshis != c.Ctx.Amount {
+			return fmt.Errorf("the spent output object handed over now carries %d satoshis instead of %d", prev.Satoshis, c.Ctx.Amount)
+		}
+	}
+	if (c.Invoke == 2 || c.Invoke == 3) && tx.Inputs[0].UnlockingScript != nil {
 		return fmt.Errorf("the checked input had no unlocking script before execution and carries %x afterwards", []byte(*tx.Inputs[0].UnlockingScript))
 	}
 	if c.Invoke != 0 {
@@ -417,7 +436,7 @@ func TestPrograms(t *testing.T) {
 				p = sgen.P2SHLookalike(t, flags)
 			case 7:
 				lp, lc := sgen.LockTimeProgram(t, flags)
-				inv := rapid.SampledFrom([]int{0, 0, 2}).Draw(t, "invoke")
+				inv := rapid.SampledFrom([]int{0, 0, 2, 3}).Draw(t, "invoke")
 				return Case{Prog: libexec.Prog{Unlock: lp.Unlock, Lock: lp.Lock, Flags: uint32(lp.Flags), Ctx: libexec.TxCtx{Version: lc.Version, LockTime: lc.LockTime, Seq: lc.Seq, Amount: 1}, Level: lp.Level}, Invoke: inv}
 			case 0:
 				p = sgen.RandomOps(t, flags, sgen.IsSigOp)
@@ -426,8 +445,8 @@ func TestPrograms(t *testing.T) {
 			default:
 				p = sgen.StackAware(t, flags, 14)
 			}
-			inv := rapid.SampledFrom([]int{0, 0, 0, 1, 2}).Draw(t, "invoke")
-			return Case{Prog: libexec.Prog{Unlock: p.Unlock, Lock: p.Lock, Flags: uint32(p.Flags), Ctx: libexec.TxCtx{Version: 2, LockTime: 100, Seq: 50, Amount: 1}, Level: p.Level}, Invoke: inv}
+			inv := rapid.SampledFrom([]int{0, 0, 0, 1, 2, 3}).Draw(t, "invoke")
+			return Case{Prog: libexec.Prog{Unlock: p.Unlock, Lock: p.Lock, Flags: uint32(p.Flags), Ctx: libexec.TxCtx{Version: 2, LockTime: 100, Seq: 50, Amount: rapid.SampledFrom([]uint64{1, 1, 0, 2, 5000, 1 << 40}).Draw(t, "amount")}, Level: p.Level}, Invoke: inv}
 		},
 		Check: check,
 	})
